@@ -13,7 +13,8 @@ import (
 // C20 — request metrics account for every /prove response exactly once.
 
 type c20Step struct {
-	Kind string   `json:"kind"` // one | burst | scrape | idle
+	Kind string   `json:"kind"`           // one | burst | held | scrape | idle
+	Held int      `json:"held,omitempty"` // held: this many requests are kept in flight at once (bodies half uploaded)
 	Reqs []genReq `json:"reqs,omitempty"`
 }
 
@@ -38,7 +39,16 @@ func genC20(mode string) func(t *rapid.T) c20Case {
 				}
 				c.Steps = append(c.Steps, st)
 			case 4:
-				c.Steps = append(c.Steps, c20Step{Kind: "scrape"})
+				if rapid.Bool().Draw(t, "held") {
+					// many requests in flight at the same instant: bodies are half uploaded, then all are completed
+					st := c20Step{Kind: "held", Held: pick(t, "nheld", 12, 20, 33, 48)}
+					for j := 0; j < 3; j++ {
+						st.Reqs = append(st.Reqs, genMetricsRequest(t, mode))
+					}
+					c.Steps = append(c.Steps, st)
+				} else {
+					c.Steps = append(c.Steps, c20Step{Kind: "scrape"})
+				}
 			default:
 				c.Steps = append(c.Steps, c20Step{Kind: "idle"})
 			}
@@ -225,6 +235,41 @@ func runC20(c c20Case) Result {
 					return bad(c.Mode+"/burst", "metrics:in-flight-never-positive", "step %d: %d scrapes completed while a proof was being generated, none read http_requests_in_flight >= 1", si, inside)
 				}
 			}
+		case "held":
+			sawConcurrent = true
+			// cheap bodies (answered 400 at once when completed) held open at the same time
+			held := make([]*slowUpload, 0, st.Held)
+			heldReq := genReq{Method: "POST", Body: `{"inputHash":"0x1","preRoot":"zz","postRoot":"0x1","identityCommitments":[],"merkleProofs":[]}`}
+			for j := 0; j < st.Held; j++ {
+				su, err := startSlowUpload(ts.ProverAddr, heldReq)
+				if err != nil {
+					for _, h := range held {
+						h.close()
+					}
+					return bad(c.Mode+"/held", "harness:slow-upload", "%v", err)
+				}
+				held = append(held, su)
+			}
+			dl := time.Now().Add(10 * time.Second)
+			for time.Now().Before(dl) {
+				if sc := ts.scrape(5 * time.Second); sc.HasGauge && int(sc.InFlight) >= st.Held {
+					break
+				}
+				time.Sleep(5 * time.Millisecond)
+			}
+			for _, r := range st.Reqs { // ordinary requests on top of the held ones
+				res := ts.doReq(r)
+				record(r, res)
+				saw200 = saw200 || res.Status == 200
+				sawErr = sawErr || res.Status >= 400
+			}
+			for _, h := range held {
+				res := h.finish(60 * time.Second)
+				h.close()
+				record(heldReq, res)
+				sawErr = sawErr || res.Status >= 400
+			}
+			tags = append(tags, fmt.Sprintf("held-burst:%d", st.Held))
 		case "scrape":
 			sc := ts.scrape(5 * time.Second)
 			if sc.Err != "" || sc.Status != 200 {
